@@ -80,6 +80,7 @@ type Oracles struct {
 	CrashEvery   int  // crash-point check every k steps (C03); 0 = off
 	Iter         bool // iterator battery (C13) every CmpEvery steps
 	CheckHandles bool // compare the view through every live handle too
+	Isolation    bool // C11: ops on detached containers leave every other tree byte-identical
 	EveryStep    func(e *Engine) error
 	AtCommit     func(e *Engine) error
 }
@@ -167,6 +168,10 @@ func NewEngine(cfg Config, or Oracles) (*Engine, error) {
 		if _, err := e.newRoot(rs); err != nil {
 			return nil, err
 		}
+	}
+	// the history starts from a committed state holding the empty roots
+	if err := e.doCommit(1); err != nil {
+		return nil, e.viol("initial commit failed: %v", err)
 	}
 	e.commitRegs = e.L.Snapshot()
 	e.commitLog = len(e.L.Log)
